@@ -9,6 +9,8 @@ from ..report import fkey
 from ..rules import guards, interval, invalidate, persist, decode
 from ..rules.common import *
 
+META = {'technique': 'static analysis: custom AST/CFG/data-flow rules; interval abstract interpretation of the range checks (rules/interval.py); invalidation and index-space analyses'}
+
 EXPLANATION = (
     'Decides necessary conditions of the fix/free laws: (A16) region abstract interpretation of the range guards '
     'of GraphProcessor.fix_des_var - a value reaches the store into the fixed-value table exactly when it lies '
